@@ -36,8 +36,9 @@ ASSUMPTIONS = [
     "copy.deepcopy(contexts) returns a list of the same length whose elements are PresentationContext objects",
 ]
 NOT_DECIDED = [
-    "the A-ASSOCIATE-AC result list ('one result per proposed context, an accepted transfer syntax on every accepted item') is "
-    "carried by C10/C11/C13's obligations on negotiate_as_acceptor and ACSE._negotiate_as_acceptor, not re-proved here",
+    "the A-ASSOCIATE-AC result list: send_accept is proved to send accepted + rejected contexts (all negotiated results, C10's "
+    "ACSE call-site contract proves that split exhaustive); 'one result per proposed context, an accepted transfer syntax on every "
+    "accepted item' for the negotiation functions themselves is C10's obligation on negotiate_as_acceptor, not re-proved here",
     "maximum PDU sizes >= 2**32 are accepted by the setters but cannot be packed into the 4-byte field (struct.error in AE-2): "
     "not examined here",
 ]
@@ -377,7 +378,12 @@ class IdsLemma(Task):
 
 def tasks(tier):
     return [TablesTask(), ValidateAeTask(), ValidateUiTask(), SetAeTask(), TitleSitesTask(), AssociateIdsTask(), IdsLemma(),
-            UserInfoInvariantTask(), UserInfoSitesTask()]
+            UserInfoInvariantTask(), UserInfoSitesTask()] + _send_tasks()
+
+
+def _send_tasks():
+    from contracts.acse_neg import SendAssociateTask
+    return [SendAssociateTask("request", "C12/"), SendAssociateTask("accept", "C12/")]
 
 
 def replay(rec):
